@@ -76,6 +76,9 @@ func (fr *Frame) builtin(in ssa.Instruction, b *ssa.Builtin, c *ssa.CallCommon) 
 		}
 		return []Val{{T: n, S: SInt, G: types.Typ[types.Int]}}
 	case "delete":
+		if mu, ok := fr.guardedSource(c.Args[0], 0); ok {
+			ex.oblige("lock", "delete-map", fmt.Sprintf("(= %s 2)", fr.heldTerm(mu)), fr.curReach, "guarded map written while holding the write lock", in.Pos(), []string{"C12", "C20"})
+		}
 		mt := c.Args[0].Type().Underlying().(*types.Map)
 		ex.mapDelete(fr.curMem, mt, fr.val(c.Args[0]).T, fr.val(c.Args[1]).T)
 		return nil
